@@ -26,23 +26,23 @@ T = {
   note='Trusted: multivariate oracle as C03; calibrated constants in the module. Multicomplex precision-loss cases (F9 class) are classified and stepped over.',
   tech='property-based testing (Hypothesis) against an exact multivariate oracle'),
  'C05': dict(
-  text='Every argument passed to the user function is recorded (copied) for generated classes x methods x n x order x dimension x step configurations x points, and the recorded list is checked against the invariants the methods promise: one-sidedness, realness, symmetric pairing for central rules, exact real part for the imaginary-step rules, reach <= stencil width * largest generated step, number of perturbed coordinates.',
+  text='Every argument passed to the user function is recorded (copied) for generated classes x methods x n x order x dimension x step configurations x points, and the recorded list is checked against the invariants the methods promise: one-sidedness, realness, symmetric pairing for central rules, exact real part for the imaginary-step rules, reach <= stencil width * largest generated step, number of perturbed coordinates. One case in four reaches its configuration through the method setter of a live object built (and possibly called) with another method.',
   note='Trusted: the library\'s own step generator is used to obtain the generated steps (configuration, verified separately by C10); ulp slack 32.',
   tech='property-based testing (Hypothesis): invariant over the recorded call history of the user callable'),
  'C06': dict(
   text='For the exhaustive grid methods x n 1..10 x order 1..10 x 7 step ratios plus random ratios: the library\'s own difference quotient is evaluated with 80-digit mpmath numbers on monomials and the float rule weights are applied exactly; checks exactness up to degree n+method_order-1, the surviving error powers (spacing 1/2/4), the method_order formula and the pairing with Richardson.',
-  note='Trusted: mpmath; moment-matrix condition number computed independently; configurations with condition number above 1e12 are counted, not asserted.',
+  note='Trusted: mpmath; moment-matrix condition number computed independently; configurations with condition number above 1e12 are counted and their moment errors tracked per decade of the condition number, not asserted.',
   tech='exhaustive enumeration of the finite grid + property-based testing (Hypothesis) in exact/80-digit arithmetic'),
  'C07': dict(
   text='Generated step ratios (real and complex), spacing, order, number of terms, lengths and columns: extrapolation weights compared with exact rational (mpmath for complex) solutions of the annihilation system, model sequences L + sum a_j h^(order+spacing j) mapped to L in every slot within conditioning-scaled rounding, output counts, non-negative error estimates, column independence (bitwise).',
   note='Trusted: Fraction Gaussian elimination / 60-digit mpmath; tolerance 100 eps * sum|w| * max|seq|.',
   tech='property-based testing (Hypothesis) against an exact rational oracle'),
  'C08': dict(
-  text='Metamorphic: D(x)[i] vs D(x\')[i] where x\' equals x at i only (bitwise: value, error estimate, final step), D(x)[i] vs D(x[i]) evaluated as a scalar (bitwise for real-step methods, within a fixed multiple of the two error estimates for complex-step methods), result shape == x shape for 0..3 axes, and a recording wrapper verifying that extra positional/keyword arguments reach f unchanged (by identity) on every call.',
+  text='Metamorphic: D(x)[i] vs D(x\')[i] where x\' equals x at i only (bitwise: value, error estimate, final step), D(x)[i] vs D(x[i]) evaluated as a scalar (bitwise for real-step methods, within a fixed multiple of the two error estimates for complex-step methods), result shape == x shape for 0..3 axes, and a recording wrapper verifying that extra positional/keyword arguments reach f unchanged (by identity) on every call; one object called twice at the same x with different extra arguments must give, the second time, exactly what a fresh object gives.',
   note='Trusted: correct rounding of + - * / sqrt in numpy (test functions use only these). Single-estimate complex-step configurations whose scalar/array difference is explained by rounding amplification are known finding F10 (stepped over, counted).',
   tech='property-based testing (Hypothesis): metamorphic relations + recorded-call invariant'),
  'C09': dict(
-  text='Generated histories (2..12 operations: construct, call, set n/order/method and restore, share a step generator, clear / pre-populate the rule cache, other classes in between) over a pool of configurations; after every call the whole record must be bit-identical to a fresh evaluation (new objects, emptied cache), for 1 history in 40 computed in a pristine interpreter process per call. Plus multi-thread scripts (2..16 threads, disjoint objects, barrier start, 1e-6 s switch interval, emptied cache) compared bitwise with the sequential model.',
+  text='Generated histories (2..12 operations: construct, call, set n/order/method and restore, share a step generator, clear / pre-populate the rule cache, other classes in between) over a pool of configurations; after every call the whole record must be bit-identical to a fresh evaluation (new objects, emptied cache), for 1 history in 40 computed in a pristine interpreter process per call. Plus sibling cases (two objects differing only in the number of steps, called alternately, every later call compared with a pristine interpreter). Plus multi-thread scripts (2..16 threads, disjoint objects, barrier start, 1e-6 s switch interval, emptied cache) compared bitwise with the sequential model.',
   note='Trusted: bitwise comparability of the exactly-rounded test functions. Thread schedules are stressed, not controlled: the thread part is a weaker level of exploration than the history part.',
   tech='model-based history generation (Hypothesis) with a fresh-evaluation model; stress scheduling for threads'),
  'C10': dict(
@@ -82,7 +82,7 @@ T = {
   note='Trusted: mpmath; the kernels\' own singularities are kept outside the generated step range by construction.',
   tech='property-based testing (Hypothesis) against a high-precision oracle'),
  'C19': dict(
-  text='Generated maps R^n -> R^m with exact Jacobians, methods central/forward/complex, relative steps, extra args/kwds recorded, random boxes with x inside or on a face: shapes, complex method exact on affine maps, finite-difference accuracy otherwise, every evaluation point inside the box, forwarding, Gradient shape.',
+  text='Generated maps R^n -> R^m with exact Jacobians, methods central/forward/complex, relative steps, extra args/kwds recorded, random boxes with x inside or on a face: shapes, complex method exact on affine maps, finite-difference accuracy otherwise, every evaluation point inside the box, forwarding, Gradient shape, and a second call of one object at the same x with other extra arguments compared bitwise with a fresh object.',
   note='Trusted: multivariate oracle; scipy\'s documented step semantics. Scalar (0-d) outputs return shape (n,) as an existing repository test requires.',
   tech='property-based testing (Hypothesis) against an exact oracle + recorded-call invariant'),
 }
